@@ -1,4 +1,8 @@
 //! Source file parsing.
+// verification seam (off by default): in a simulator build every `std::…` and `crossbeam::…` path of
+// this file resolves to the simulator's stand-ins (std itself except fs, thread and sync)
+#[cfg(typeshare_verif)]
+use verif_rt::{shim as std, shim_crossbeam as crossbeam};
 use anyhow::Context;
 use crossbeam::channel::bounded;
 use ignore::{DirEntry, WalkBuilder, WalkState};
